@@ -2,7 +2,7 @@
   Oracle for C04 (model store).  STATEFUL: the oracle carries the model store of the current history.
 
     reset                                                   -> ok          (empty store)
-    variant <fixAlias 0|1> <fixResolve 0|1> <fixReturn 0|1> <fixKeep 0|1>
+    variant <fixAlias 0|1> <fixResolve 0|1> <fixReturn 0|1> <fixKeep 0|1> <fixPullName 0|1>
                                                             -> ok          (what the driver's probes found)
     meta <contenthex> <archhex> <mtypehex> <ftypehex> <autoTemplate hex|~> <autoParams hex|~>
                                                             -> ok          (what the real decoder / template.Named reported)
@@ -124,7 +124,7 @@ def outcomes (env : Env) (st : Store) : Op → List (Store × List String)
     (resolveAll env st s).flatMap (fun s' =>
       (resolveAll env st d).map (fun d' => copyAt st s' d'))
   | .delete n => (resolveAll env st n).map (fun t => deleteAt env st t)
-  | .pull n reg served => (resolveAll env st n).map (fun t => pullAt env st t reg served)
+  | .pull n reg served => (resolveAll env st n).map (fun t => pullAt env st (pullTarget env t) reg served)
   | op => [step env st op ⟨[], [], false⟩]
 
 def mediaOfCode : String → Option Media
@@ -206,7 +206,7 @@ def splitObs (toks : List String) : List String × String :=
 def handle (s : OState) (toks : List String) : OState × String :=
   match toks with
   | ["reset"] => ({ s with st := Store.empty }, "ok")
-  | ["variant", a, b, c, d] => ({ s with v := ⟨a == "1", b == "1", c == "1", d == "1"⟩ }, "ok")
+  | ["variant", a, b, c, d, e] => ({ s with v := ⟨a == "1", b == "1", c == "1", d == "1", e == "1"⟩ }, "ok")
   | "meta" :: rest =>
     match runTP (do
       let c ← hex
